@@ -759,7 +759,7 @@ import vlib as _vlib
 
 MODEL_FILES = ["Expr/Arith.v", "Expr/Canon.v", "Expr/ArithGuards.v"]
 PROOF_FILES = ["Expr/ArithNum.v", "Expr/ArithDict.v", "Expr/ArithAddProofs.v", "Expr/Denote.v", "Expr/ArithFuel.v",
-               "Expr/ArithFuelMono.v", "Expr/ArithMulProofs.v", "Expr/ArithProg.v", "Expr/DenoteMul.v", "Expr/ArithMulUnique.v", "Expr/ArithPowProofs.v"]
+               "Expr/ArithFuelMono.v", "Expr/ArithMulProofs.v", "Expr/ArithProg.v", "Expr/DenoteMul.v", "Expr/ArithMulUnique.v", "Expr/ArithPowProofs.v", "Expr/DenotePow.v"]
 EXTERNAL_DEPS = ["Num/NumModel.vo", "Expr/Cmp.vo", "Expr/Wf.vo", "Num/NumC05.vo", "Expr/CmpProofs.vo"]
 
 
